@@ -1299,8 +1299,30 @@ impl GraphDatabase {
             valid_edges.push((edge, name));
         }
 
-        let msg = AuthorisationMessage::AddEdges(room_id, valid_edges, invalid_edges, reply);
-        let _ = self.auth_service.send(msg).await;
+        //an edge belongs to the room of its source node: the edges of nodes that are not stored in the synchronised room are refused
+        let auth_service = self.auth_service.clone();
+        let _ = self
+            .graph_database
+            .reader
+            .send_async(Box::new(move |conn| {
+                match Edge::filter_by_source_room(&room_id, valid_edges, conn).map_err(Error::from)
+                {
+                    Ok((valid_edges, mut foreign)) => {
+                        invalid_edges.append(&mut foreign);
+                        let msg = AuthorisationMessage::AddEdges(
+                            room_id,
+                            valid_edges,
+                            invalid_edges,
+                            reply,
+                        );
+                        let _ = auth_service.send_blocking(msg);
+                    }
+                    Err(e) => {
+                        let _ = reply.send(Err(e));
+                    }
+                }
+            }))
+            .await;
     }
 
     pub async fn delete_edges(&self, mut edges: Vec<EdgeDeletionEntry>, reply: Sender<Result<()>>) {
